@@ -50,6 +50,14 @@ CHECKS = {
             "hit results over the same objects in exact integer arithmetic and checks that the state the real code generated is at "
             "least as close to the target as any of them (ties accepted) and has the given number of misses.",
             "DESIGN.md 3/C13", "TLC evaluates exact-rational optimality over all distributions on results recorded from the real code"),
+    "C06": ("spec/Decoder.tla + MC_Decoder.tla + TraceDecoder.tla; harness decode-replay / decode-record", "model_checking",
+            "The line-level decoder machine (sections, pending control-point buffer with flush / push_front / push_back, redundancy "
+            "checks, binary-search insert/replace, object list with ids, stable tandem sort, clamps) is model checked for ALL line "
+            "sequences up to a bound per aspect: every prefix of every file yields a well-formed map and bad lines are no-ops; every "
+            "enumerated file is rendered (CRLF / BOM / comments / UTF-16 variants), decoded through bytes, str and path, and the real "
+            "map is compared field by field with the model's; maps decoded from fixtures, mutated fixtures and noise are validated by "
+            "TLC against the same well-formedness predicate.",
+            "DESIGN.md 3/C06", "TLA+ model checking (TLC) + spec-to-impl replay of every enumerated file + trace validation"),
 }
 
 NOT_YET = {
